@@ -111,6 +111,10 @@ func execHistory(p eng.Profile, base string, ops []map[string]any, points map[st
 					taken[name] = true
 					copyDir(dir, dst)
 				}
+				if dst, ok := points[name+".keep"]; ok && !taken[name+".keep"] {
+					taken[name+".keep"] = true
+					copyDir(dir, dst)
+				}
 			}
 		}
 		if _, err := r.Exec(op); err != nil {
@@ -261,6 +265,13 @@ func runCrashCase(p eng.Profile, c crashCase, tornAll bool, res *crashOut) {
 	for _, mp := range midPoints {
 		points[mp] = img("mid-" + mp)
 	}
+	// A torn last frame is only realistic together with the files as they were BEFORE the call's own
+	// file-system steps: VDeleteIndex removes the arena directory after its VDROP record reached the log.
+	tornBase := ""
+	if lastOp == "VDeleteIndex" {
+		tornBase = img("tornbase")
+		points["op.journaled.keep"] = tornBase
+	}
 	live, err := execHistory(p, base, c.Ops, points, c.FlushAfter)
 	if err != nil {
 		res.Errors = append(res.Errors, c.ID+": "+err.Error())
@@ -289,7 +300,18 @@ func runCrashCase(p eng.Profile, c crashCase, tornAll bool, res *crashOut) {
 			}
 			for _, cut := range cuts {
 				dst := img(fmt.Sprintf("torn%d", cut))
-				copyDir(live.Dir, dst)
+				if tornBase != "" {
+					if _, err := os.Stat(tornBase); err != nil {
+						continue
+					}
+					copyDir(tornBase, dst)
+					os.Remove(filepath.Join(dst, "kektordb.aof"))
+					if err := exec.Command("cp", aof, filepath.Join(dst, "kektordb.aof")).Run(); err != nil {
+						continue
+					}
+				} else {
+					copyDir(live.Dir, dst)
+				}
 				if err := os.Truncate(filepath.Join(dst, "kektordb.aof"), cut); err != nil {
 					continue
 				}
